@@ -88,6 +88,7 @@ type G struct {
 	epoch  int
 	name   string
 	depth  int
+	stack  []*ssa.Function
 }
 
 type Machine struct {
@@ -149,6 +150,12 @@ type Machine struct {
 	mutexNames   map[*Value]string
 	traceAllMutex bool
 	domPending   []domFact
+	race         *raceLog
+	curSendEv    *rEvent
+	lastRecvMatch *rEvent
+	RaceReports  []RaceReport
+	RaceStats    RaceStats
+	RaceSolverStats *smt.Stats
 	lastRun      *Run
 	mapOrderRev  bool
 	idN          int
@@ -530,6 +537,13 @@ func (m *Machine) Assert(v Value, id string, msg string) {
 	panic(pathAbort{"violation", id})
 }
 
+func (m *Machine) CrossStatsOrNew() *smt.Stats {
+	if m.RaceSolverStats == nil {
+		m.RaceSolverStats = &smt.Stats{}
+	}
+	return m.RaceSolverStats
+}
+
 // crossCheck re-decides an unsat assertion query on a second solver.
 func (m *Machine) crossCheck(neg *sym.Term, id string) {
 	s2, err := smt.Start(m.CrossKind, 120*time.Second, m.CrossStats)
@@ -595,6 +609,9 @@ func (m *Machine) spawn(fn Value, args []Value, name string) {
 	g := m.newG(name)
 	g.state = gRunnable
 	m.runq = append(m.runq, g)
+	if m.race != nil {
+		m.raceEvent(evGo, nil).child = g.id
+	}
 	go func() {
 		msg := <-g.wake
 		if msg != wakeRun {
@@ -833,6 +850,7 @@ func (m *Machine) cleanup() {
 type waiter struct {
 	g     *G
 	epoch int
+	ev    *rEvent
 	val   Value
 	ok    bool
 	done  bool
@@ -841,6 +859,7 @@ type waiter struct {
 }
 
 type selState struct {
+	ev     *rEvent
 	done   bool
 	chosen int
 	val    Value
@@ -855,6 +874,7 @@ type Chan struct {
 	sendq  []*waiter
 	elem   types.Type
 	id     int
+	evq    []*rEvent // race log: send events of the buffered values
 }
 
 func (w *waiter) live() bool {
@@ -901,6 +921,7 @@ func (m *Machine) complete(w *waiter, val Value, ok bool) {
 	w.ok = ok
 	if w.sel != nil {
 		w.sel.done = true
+		w.sel.ev = w.ev
 		w.sel.chosen = w.caseI
 		w.sel.val = val
 		w.sel.ok = ok
@@ -914,11 +935,15 @@ func (m *Machine) trySend(c *Chan, v Value) bool {
 		panic(goPanic{msg: "send on closed channel"})
 	}
 	if w := c.firstLive(&c.recvq); w != nil {
+		w.ev = m.curSendEv
 		m.complete(w, v, true)
 		return true
 	}
 	if len(c.buf) < c.cap {
 		c.buf = append(c.buf, v)
+		if m.race != nil {
+			c.evq = append(c.evq, m.curSendEv)
+		}
 		return true
 	}
 	return false
@@ -928,14 +953,22 @@ func (m *Machine) tryRecv(c *Chan) (Value, bool, bool) {
 	if len(c.buf) > 0 {
 		v := c.buf[0]
 		c.buf = c.buf[1:]
+		if m.race != nil && len(c.evq) > 0 {
+			m.lastRecvMatch = c.evq[0]
+			c.evq = c.evq[1:]
+		}
 		if w := c.firstLive(&c.sendq); w != nil {
 			c.buf = append(c.buf, w.val)
+			if m.race != nil {
+				c.evq = append(c.evq, w.ev)
+			}
 			m.complete(w, nil, true)
 		}
 		return v, true, true
 	}
 	if w := c.firstLive(&c.sendq); w != nil {
 		v := w.val
+		m.lastRecvMatch = w.ev
 		m.complete(w, nil, true)
 		return v, true, true
 	}
@@ -955,10 +988,18 @@ func (m *Machine) chanSend(c *Chan, v Value) {
 		m.park("send on nil chan")
 		m.unsupported("woken from nil-channel send")
 	}
+	var es *rEvent
+	if m.race != nil {
+		es = m.raceEvent(evSendStart, c)
+		m.curSendEv = es
+	}
 	if m.trySend(c, v) {
+		if es != nil {
+			m.raceEvent(evSendEnd, c).match = es
+		}
 		return
 	}
-	w := &waiter{g: m.cur, epoch: m.cur.epoch, val: v}
+	w := &waiter{g: m.cur, epoch: m.cur.epoch, val: v, ev: es}
 	c.sendq = append(c.sendq, w)
 	m.park(fmt.Sprintf("send ch%d", c.id))
 	if !w.done {
@@ -966,6 +1007,9 @@ func (m *Machine) chanSend(c *Chan, v Value) {
 	}
 	if !w.ok {
 		panic(goPanic{msg: "send on closed channel"})
+	}
+	if es != nil {
+		m.raceEvent(evSendEnd, c).match = es
 	}
 }
 
@@ -979,7 +1023,12 @@ func (m *Machine) chanRecv(c *Chan) (Value, bool) {
 		m.park("recv on nil chan")
 		m.unsupported("woken from nil-channel recv")
 	}
+	m.lastRecvMatch = nil
 	if v, ok, done := m.tryRecv(c); done {
+		if m.race != nil {
+			e := m.raceEvent(evRecv, c)
+			e.ok, e.match = ok, m.lastRecvMatch
+		}
 		return v, ok
 	}
 	w := &waiter{g: m.cur, epoch: m.cur.epoch}
@@ -987,6 +1036,10 @@ func (m *Machine) chanRecv(c *Chan) (Value, bool) {
 	m.park(fmt.Sprintf("recv ch%d", c.id))
 	if !w.done {
 		m.unsupported("spurious wakeup in recv")
+	}
+	if m.race != nil {
+		e := m.raceEvent(evRecv, c)
+		e.ok, e.match = w.ok, w.ev
 	}
 	return w.val, w.ok
 }
@@ -998,6 +1051,9 @@ func (m *Machine) chanClose(c *Chan) {
 	}
 	if c.closed {
 		panic(goPanic{msg: "close of closed channel"})
+	}
+	if m.race != nil {
+		m.raceEvent(evClose, c)
 	}
 	c.closed = true
 	for {
@@ -1054,14 +1110,27 @@ func (m *Machine) doSelect(cases []selCase, blocking bool) (int, Value, bool) {
 		k := ready[m.Choose("select", len(ready))]
 		sc := cases[k]
 		if sc.send {
+			var es *rEvent
+			if m.race != nil {
+				es = m.raceEvent(evSendStart, sc.ch)
+				m.curSendEv = es
+			}
 			if !m.trySend(sc.ch, sc.val) {
 				m.unsupported("select: send not possible after readiness check")
 			}
+			if es != nil {
+				m.raceEvent(evSendEnd, sc.ch).match = es
+			}
 			return k, nil, false
 		}
+		m.lastRecvMatch = nil
 		v, ok, done := m.tryRecv(sc.ch)
 		if !done {
 			m.unsupported("select: recv not possible after readiness check")
+		}
+		if m.race != nil {
+			e := m.raceEvent(evRecv, sc.ch)
+			e.ok, e.match = ok, m.lastRecvMatch
 		}
 		return k, v, ok
 	}
@@ -1076,6 +1145,10 @@ func (m *Machine) doSelect(cases []selCase, blocking bool) (int, Value, bool) {
 		}
 		any = true
 		w := &waiter{g: m.cur, epoch: m.cur.epoch, val: sc.val, sel: st, caseI: i}
+		if m.race != nil && sc.send {
+			// a blocked select send: the start event is recorded now, the end on completion
+			w.ev = m.raceEvent(evSendStart, sc.ch)
+		}
 		if sc.send {
 			sc.ch.sendq = append(sc.ch.sendq, w)
 		} else {
@@ -1092,7 +1165,14 @@ func (m *Machine) doSelect(cases []selCase, blocking bool) (int, Value, bool) {
 		if !st.ok {
 			panic(goPanic{msg: "send on closed channel"})
 		}
+		if m.race != nil {
+			m.raceEvent(evSendEnd, sc.ch)
+		}
 		return st.chosen, nil, false
+	}
+	if m.race != nil {
+		e := m.raceEvent(evRecv, sc.ch)
+		e.ok, e.match = st.ok, st.ev
 	}
 	return st.chosen, st.val, st.ok
 }
@@ -1109,6 +1189,9 @@ func (m *Machine) mutexLock(p *Value) {
 		st := (*p).(Struct)
 		if st[0].(int64) == 0 {
 			st[0] = int64(1)
+			if m.race != nil {
+				m.raceEvent(evLock, p)
+			}
 			return
 		}
 		m.mutexW[p] = append(m.mutexW[p], m.cur)
@@ -1135,6 +1218,9 @@ func (m *Machine) mutexUnlock(p *Value) {
 		panic(goPanic{msg: "sync: unlock of unlocked mutex"})
 	}
 	st[0] = int64(0)
+	if m.race != nil {
+		m.raceEvent(evUnlock, p)
+	}
 	ws := m.mutexW[p]
 	for len(ws) > 0 {
 		g := ws[0]
@@ -1148,6 +1234,9 @@ func (m *Machine) mutexUnlock(p *Value) {
 }
 
 func (m *Machine) wgAdd(p *Value, n int64) {
+	if m.race != nil && n < 0 {
+		m.raceEvent(evWgDone, p)
+	}
 	m.wgCount[p] += n
 	if m.wgCount[p] < 0 {
 		panic(goPanic{msg: "sync: negative WaitGroup counter"})
@@ -1164,5 +1253,8 @@ func (m *Machine) wgWait(p *Value) {
 	for m.wgCount[p] > 0 {
 		m.wgW[p] = append(m.wgW[p], m.cur)
 		m.park("waitgroup")
+	}
+	if m.race != nil {
+		m.raceEvent(evWgWait, p)
 	}
 }
